@@ -9,7 +9,7 @@ import tracemalloc
 import zlib
 from pathlib import Path
 
-from mc import monitors
+from mc import monitors, pattern
 from mc.engine import Timeout
 from mc.models import DATA, HOLE, ZERO
 from mc.scratch import scratch_dir
@@ -523,6 +523,11 @@ def _special_cases():
         out.append({"kind": "special", "what": "prl-shot-cycle", "n": n})
     for how in ("self", "pair", "to-first", "unaligned-self", "unaligned-pair"):
         out.append({"kind": "special", "what": "hyperv-objtable-cycle", "how": how})
+    for typ in ("Plain", "Compressed"):
+        for how in ("truncated-half", "truncated-odd", "empty", "header-size-smaller", "end-raised", "end-raised-last"):
+            if how == "header-size-smaller" and typ == "Plain":
+                continue
+            out.append({"kind": "special", "what": "prl-storage-shorter-than-range", "type": typ, "how": how})
     out.append({"kind": "special", "what": "vmdk-bomb-x-header-fields"})
     out.append({"kind": "special", "what": "qcow2-bomb-x-header-fields"})
     out.append({"kind": "special", "what": "hyperv-parent-cycle"})
@@ -602,6 +607,35 @@ def _run_special(case, ctx):
         for k in range(n):
             files[f"x.{k}.hds"] = BH.build_hds([DATA, HOLE, DATA], [2, None, 1], 8, 2, 24, layer=k + 1).tobytes()
         return _execute(ctx, case, None, files, subject, drv_hdd_dir, {}, sum(len(v) for v in files.values()))
+    if what == "prl-storage-shorter-than-range":
+        # a split disk whose descriptor promises more sectors for a storage than its image delivers (image cut off, image header
+        # with a smaller size, End raised): reads that reach the missing part return (short) or raise, they do not wait for it
+        typ, how = case["type"], case["how"]
+        n = 24
+        ends = [n, 2 * n, 3 * n]
+        files = {}
+        storages = []
+        for k in range(3):
+            fn = f"x.{k}.hds"
+            if typ == "Plain":
+                data = pattern.span(k + 1, 0, n * 512)
+            else:
+                size = n // 2 if (how == "header-size-smaller" and k == 0) else n
+                data = BH.build_hds([DATA, HOLE, DATA], [2, None, 1], 8, 2, size, layer=k + 1).tobytes()
+            if k == 0 and how == "truncated-half":
+                data = data[: len(data) // 2]
+            elif k == 0 and how == "truncated-odd":
+                data = data[: len(data) // 2 + 77]
+            elif k == 0 and how == "empty":
+                data = data[:0] if typ == "Plain" else data[:64]
+            files[fn] = data
+            storages.append([k * n, ends[k], [(BH.DEFAULT_TOP, typ, fn)]])
+        if how == "end-raised":
+            storages[0][1] = 2 * n + 5  # overlaps the second storage
+        elif how == "end-raised-last":
+            storages[2][1] = 40 * n
+        files["DiskDescriptor.xml"] = BH.descriptor_xml(storages[2][1], [tuple(x) for x in storages], [(BH.DEFAULT_TOP, BH.NULL_GUID)]).encode()
+        return _execute(ctx, case, None, files, subject, drv_hdd_dir, {}, sum(len(v) for v in files.values()) + storages[2][1] * 512)
     if what == "prl-duplicate-shot-guid":
         g = [BH.DEFAULT_TOP] + [f"{{0000000{k}-0000-4000-8000-000000000000}}" for k in range(1, 4)]
         v = case["variant"]
